@@ -7,8 +7,15 @@
    orders and all sizes; the state is the byte array.  fb_ok c data: 0 <= WIDTH, HEIGHT <= i32::MAX (the
    `as u32` / `as i32` casts of as_image / pixel are exact), data consists of bytes, N >= BUFFER_SIZE
    (the compile-time CHECK_N) and 8 * N <= usize::MAX.  Colours are their raw values (raw_ok: < 2^bits).
-   fb_pixel returns Panic | Pix (option colour): the theorems show it is never Panic. *)
+   fb_pixel returns Panic | Pix (option colour): the theorems show it is never Panic.
+   usize is a parameter (class Usize of Model/Rawdata.v): the section holds for 16-, 32- and 64-bit targets alike;
+   only the bridge to the C09 image model at the end is for the 64-bit instance that model is written for. *)
 From EG Require Import Base.Prelude Model.Rawdata Proofs.Rawdata Model.Framebuffer Proofs.Framebuffer.
+From EG Require Model.Geometry Proofs.Geometry Model.Target Proofs.Target Proofs.Fbtarget Gen.FbShape.
+From EG Require Model.Imageraw Proofs.Imageraw Proofs.Imagebridge.
+
+Section AnyUsize.
+Context {U : Usize}.
 
 (* a new framebuffer reads the all-zero colour inside, None outside *)
 Theorem C10_fb_init : forall c n q,
@@ -56,14 +63,67 @@ Theorem C10_fb_history : forall c ops data q,
   fb_ok c data -> Forall (fbop_ok c) ops ->
   fb_ok c (fold_left (fb_step c) ops data) /\
   buf_len (fold_left (fb_step c) ops data) = buf_len data /\
-  fb_pixel c (fold_left (fb_step c) ops data) q = last_write c q (flat_map op_writes ops) (fb_pixel c data q).
+  fb_pixel c (fold_left (fb_step c) ops data) q = last_write c q (flat_map (op_writes c) ops) (fb_pixel c data q).
 Proof. exact fb_history. Qed.
 
 Theorem C10_fb_history_from_new : forall c n ops q,
   fb_ok c (fb_new n) -> Forall (fbop_ok c) ops ->
   fb_pixel c (fold_left (fb_step c) ops (fb_new n)) q =
-  last_write c q (flat_map op_writes ops) (Pix (if fb_insideb c q then Some 0 else None)).
+  last_write c q (flat_map (op_writes c) ops) (Pix (if fb_insideb c q then Some 0 else None)).
 Proof. exact fb_history_new. Qed.
+
+(* ---- fill_solid / fill_contiguous / clear: Framebuffer inherits the DrawTarget trait defaults -------------------
+   (op_writes of these operations is area.points() zipped with the colour stream, i.e. what the defaults of
+   core/src/draw_target/mod.rs hand to draw_iter; C10_fb_history and C10_fb_tail_untouched_history above range
+   over all five operations).  rect_fits = the rectangle's extents and far edges fit i32 (Rectangle::points
+   does not saturate); stream_ok = every colour of the stream is a raw value. *)
+
+(* the source defines only draw_iter in every `impl DrawTarget for Framebuffer` and the three default bodies are
+   the ones modelled (regenerated from the tree under test by translate/gen_fb.py; a change breaks this proof) *)
+Theorem C10_fb_inherits_trait_defaults :
+  FbShape.fb_drawtarget_impls = 3%nat /\ FbShape.fb_drawtarget_other_fns = 0%nat /\
+  FbShape.trait_defaults_as_modelled = true /\ FbShape.fb_size_is_width_height = true.
+Proof. repeat split; reflexivity. Qed.
+
+Theorem C10_fb_clear : forall c data v q,
+  fb_ok c data -> raw_ok (fb_t c) v ->
+  fb_pixel c (fb_clear c data v) q = Pix (if fb_insideb c q then Some v else None).
+Proof. exact Fbtarget.fb_clear_spec. Qed.
+
+Theorem C10_fb_fill_solid : forall c data a v q,
+  fb_ok c data -> raw_ok (fb_t c) v -> Target.rect_fits a ->
+  fb_pixel c (fb_fill_solid c data a v) q =
+  if fb_insideb c q && Geometry.contains a (Geometry.P (fst q) (snd q)) then Pix (Some v) else fb_pixel c data q.
+Proof. exact Fbtarget.fb_fill_solid_spec. Qed.
+
+(* colour number (y - top) * width + (x - left) of the stream goes to (x, y); surplus colours are ignored, a
+   stream that ends early leaves the remaining points unchanged *)
+Theorem C10_fb_fill_contiguous : forall c data a cs q,
+  fb_ok c data -> Fbtarget.stream_ok c cs -> Target.rect_fits a ->
+  fb_pixel c (fb_fill_contiguous c data a cs) q =
+  if fb_insideb c q && Geometry.contains a (Geometry.P (fst q) (snd q))
+  then match Target.sget cs (Target.idx_in a (Geometry.P (fst q) (snd q))) with
+       | Some v => Pix (Some v) | None => fb_pixel c data q end
+  else fb_pixel c data q.
+Proof. exact Fbtarget.fb_fill_contiguous_spec. Qed.
+
+(* the operation conditions of the history theorems are met by raw colours *)
+Theorem C10_fb_fill_ops_ok : forall c a v cs,
+  (raw_ok (fb_t c) v -> fbop_ok c (OpFillSolid a v) /\ fbop_ok c (OpClear v)) /\
+  (Fbtarget.stream_ok c cs -> fbop_ok c (OpFillContiguous a cs)).
+Proof. exact Fbtarget.fill_ops_ok. Qed.
+
+(* Framebuffer is a conforming target: any history of the five operations leaves the map that painting the
+   corresponding calls on a target with NATIVE fill methods leaves (Model/Target.v, property C03's semantics) *)
+Theorem C10_fb_history_is_paint : forall c ops data p,
+  fb_ok c data -> Forall (fbop_ok c) ops -> Forall Fbtarget.fbop_fits ops ->
+  Fbtarget.fb_abs c (fold_left (fb_step c) ops data) p =
+  Target.paint_all (fb_bounding_box c) Target.Native (map Fbtarget.op_call ops) (Fbtarget.fb_abs c data) p.
+Proof. exact Fbtarget.fb_history_paint. Qed.
+
+Theorem C10_fb_step_tail_untouched : forall c data o k,
+  fb_ok c data -> fbop_ok c o -> fb_buffer_size c <= k -> byte_at (fb_step c data o) k = byte_at data k.
+Proof. exact Fbtarget.fb_step_tail. Qed.
 
 (* outside WIDTH x HEIGHT: pixel is None, a write changes no byte - for every i32 point and every state *)
 Theorem C10_fb_pixel_outside_none : forall c data q,
@@ -100,6 +160,36 @@ Theorem C10_fb_as_image_draw : forall c data,
       fb_pixel c data (x, y) = Pix (nth_error cols (Z.to_nat (y * fb_w c + x))).
 Proof. exact fb_as_image_draw. Qed.
 
+End AnyUsize.
+
+Section Bridge64.
+Local Existing Instance usize64.
+
+(* ---- bridge to the ImageRaw model of property C09 (Model/Imageraw.v) --------------------------------------------
+   Framebuffer.v's ImageRaw::pixel is Imageraw.v's raw_pixel on the same data ... *)
+Theorem C10_image_pixel_eq : forall im p,
+  bytes_ok (img_data im) -> len_ok (img_data im) -> 0 <= data_width im ->
+  image_pixel im (Geometry.px p, Geometry.py p) = Imageraw.raw_pixel (Imagebridge.to_ir im) p.
+Proof. exact Imagebridge.image_pixel_eq. Qed.
+
+(* ... hence C09's image_draw_spec applies to as_image(): after Image::new(&fb.as_image(), o).draw(target) on a target
+   with bounding box bb (Imageraw.render: the fill_contiguous call with its area and colour stream, painted with the
+   DrawTarget contract) the target holds at q the framebuffer's colour at q - o inside bb /\ (o, WIDTH x HEIGHT) and
+   nothing elsewhere: drawing as_image() reproduces the content.  Sizes and offset within +-2^29 (range of C09). *)
+Theorem C10_fb_as_image_render : forall c data o,
+  fb_ok c data -> fb_w c <= Geometry.bound -> fb_h c <= Geometry.bound -> Geometry.point_ok o ->
+  exists im,
+    fb_as_image c data = Some im /\ Imageraw.img_ok (Imagebridge.to_ir im) /\
+    forall bb q,
+      Imageraw.render bb (Imageraw.image_draw (Imageraw.Img (Imageraw.Raw (Imagebridge.to_ir im)) o)) q =
+      if Geometry.contains bb q && Geometry.contains (Geometry.R o (Geometry.S (fb_w c) (fb_h c))) q
+      then Fbtarget.fb_abs c data (Geometry.psub q o) else None.
+Proof. exact Imagebridge.fb_as_image_render. Qed.
+
+End Bridge64.
+
+Section Witness.
+Local Existing Instance usize64.
 (* non-vacuity: a 9x2 1-bpp framebuffer (rows padded to 2 bytes) in both data orders, oversized by one byte *)
 Example C10_witness :
   let c0 := FbCfg U1 false 9 2 in let c1 := FbCfg U1 true 9 2 in
@@ -116,3 +206,4 @@ Proof.
   split; [apply fb_new_ok; vm_compute; repeat split; congruence|].
   repeat split; vm_compute; reflexivity.
 Qed.
+End Witness.
